@@ -258,10 +258,11 @@ def c15_case(case):
     kind, wname, seed_j, subset, fmt = case[:5]
     w = worlds.world(wname)
     seed = worlds.seed_from_json(seed_j)
-    if len(case) > 5 and case[5] == "desc":
-        # ids decreasing with time: a set of small ints iterates descendants before ancestors
+    if len(case) > 5 and case[5] in ("desc", "zero"):
+        # desc: ids decreasing with time (a set of small ints iterates descendants before
+        # ancestors); zero: zero-based ids (node 0 is a legal, falsy id)
         n = len(seed["nodes"])
-        m = {k: n + 1 - k for k in seed["nodes"]}
+        m = {k: (n + 1 - k if case[5] == "desc" else k - 1) for k in seed["nodes"]}
         seed = {"nodes": {m[k]: v for k, v in seed["nodes"].items()}, "edges": [(m[u], m[v]) for u, v in seed["edges"]]}
         subset = [m[k] for k in subset]
     tracks = explore.rebuild(w, seed, [])
@@ -347,6 +348,8 @@ def c15_cases(tier):
                     yield ("subset", wname, sj, sub, "csv")
                     if r >= 2:
                         yield ("subset", wname, sj, sub, "csv", "desc")
+                    if r >= 1 and wname == "noseg-2d-given":
+                        yield ("subset", wname, sj, sub, "csv", "zero")
                     # GEFF export costs ~0.2 s: quick tier enumerates it for all forests <= 3 nodes
                     # (all subsets) and for 4-node forests with segmentation-free tracks for
                     # selections of one node; thorough for everything
@@ -396,7 +399,7 @@ def c12_table(seed, scheme, parent_enc, ndim, naming, extras, pos_order, malform
             r[a] = float(10 * (k + 1) + i) + 0.25
         p = parent.get(n)
         if p is None:
-            r["parent_id"] = -1 if parent_enc == "minus1" else None
+            r["parent_id"] = -1 if parent_enc.startswith("minus1") else None
         else:
             r["parent_id"] = ids[p]
         if extras:
@@ -410,7 +413,26 @@ def c12_table(seed, scheme, parent_enc, ndim, naming, extras, pos_order, malform
     df = pd.DataFrame(rows, columns=cols)
     if parent_enc == "nan" and scheme in ("seq", "gaps", "zero", "desc"):
         df["parent_id"] = df["parent_id"].astype("float")  # NaN for roots, like pd.read_csv does
+    if parent_enc == "minus1-reindexed":
+        # a table that was sorted / filtered before: rows reversed, index labels not 0..n-1
+        df = df.iloc[::-1]
+        df.index = [10 + 3 * k for k in range(len(df))][::-1]
     rename = {}
+    if naming == "collide":
+        rename = {"time": "t"}
+        df = df.rename(columns=rename)
+        df["time"] = [100.5 + i for i in range(len(df))]  # an unrelated column spelled like a standard key
+        rename = {"time": "t"}
+        R0 = lambda c: rename.get(c, c)  # noqa: E731
+        order = list(axes) if pos_order == "std" else list(reversed(axes))
+        nmap = {"time": "t", "pos": [R0(a) for a in order], "id": "id", "parent_id": "parent_id", "stamp": "time"}
+        if extras:
+            nmap["score"] = "score"
+            nmap["vec"] = "vec"
+        for i, r in enumerate(rows):
+            r["stamp"] = 100.5 + i
+        expected = {"rows": rows, "ids": ids, "parent": parent, "order": order, "axes": axes}
+        return df, nmap, expected
     if naming == "renamed":
         rename = {"time": "Frame", "id": "Cell", "parent_id": "Mother", "y": "Row", "x": "Col", "z": "Plane", "score": "Quality", "vec": "Vector"}
     elif naming == "id-renamed":
@@ -501,6 +523,9 @@ def _c12_compare(tr, exp, scheme, case, cls, check):
         if norm(tr.get_position(node)) != norm([r[a] for a in order]):
             out.append(vio("C12", "position", f"node {node}: position {tr.get_position(node)} != {[r[a] for a in order]} (mapped order {order})", case, check, cls))
             break
+        if "stamp" in r and norm(tr.get_node_attr(node, "stamp")) != norm(r["stamp"]):
+            out.append(vio("C12", "custom-property", f"node {node}: stamp {tr.get_node_attr(node, 'stamp')} != source column 'time' value {r['stamp']}", case, check, cls))
+            break
         if "score" in r:
             got = tr.get_node_attr(node, "score")
             if r["score"] is None:
@@ -524,9 +549,13 @@ def c12_cases(tier):
     for seed in forests:
         sj = worlds.seed_to_json(seed)
         for scheme in ID_SCHEMES:
-            for penc in ("minus1", "nan"):
+            for penc in ("minus1", "nan", "minus1-reindexed"):
                 for ndim in (3, 4):
-                    for naming in ("std", "renamed", "id-renamed"):
+                    for naming in ("std", "renamed", "id-renamed", "collide"):
+                        if penc == "minus1-reindexed" and (ndim == 4 or naming in ("id-renamed", "collide")):
+                            continue
+                        if naming == "collide" and (penc != "minus1" or ndim == 4):
+                            continue
                         for extras in (False, True, "sparse"):
                             for order in ("std", "rev"):
                                 if q and ndim == 4 and (extras or order == "rev") and naming != "std":
@@ -558,7 +587,8 @@ def c12_geff_case(case):
     nodes = sorted(seed["nodes"])
     ids = dict(zip(nodes, _ids(scheme, len(nodes))))
     axes = ["y", "x"] if ndim == 3 else ["z", "y", "x"]
-    R = (lambda c: {"time": "Frame", "y": "Row", "x": "Col", "z": "Plane", "score": "Quality", "pos": "Where"}.get(c, c)) if naming == "renamed" else (lambda c: c)
+    R = (lambda c: {"time": "Frame", "y": "Row", "x": "Col", "z": "Plane", "score": "Quality", "pos": "Where"}.get(c, c)) if naming == "renamed" else (
+        (lambda c: {"time": "t"}.get(c, c)) if naming == "collide" else (lambda c: c))
     g = nx.DiGraph()
     rows = []
     for i, n in enumerate(nodes):
@@ -571,6 +601,8 @@ def c12_geff_case(case):
         else:
             for a in axes:
                 attrs[R(a)] = r[a]
+        if naming == "collide":
+            attrs["time"] = 100.5 + i  # an unrelated property spelled like a standard key
         g.add_node(ids[n], **attrs)
         rows.append(r)
     for u, v in seed["edges"]:
@@ -578,6 +610,8 @@ def c12_geff_case(case):
     order = list(axes) if pos_mode != "rev" else list(reversed(axes))
     nmap = {"time": R("time"), "score": R("score")}
     nmap["pos"] = R("pos") if pos_mode == "stacked" else [R(a) for a in order]
+    if naming == "collide":
+        nmap["stamp"] = "time"
     cls = f"geff:{scheme}:{naming}:{pos_mode}"
     d = _tmp()
     try:
@@ -612,8 +646,10 @@ def c12_geff_case(case):
         except Exception as e:  # noqa: BLE001
             return [vio("C12", "wellformed-raises", f"{type(e).__name__}: {str(e)[:300]}", case, "import_from_geff", cls + ":" + type(e).__name__)]
         exp = {"rows": [dict(r) for r in rows], "ids": ids, "parent": {v: u for u, v in seed["edges"]}, "order": order, "axes": axes}
-        for r in exp["rows"]:
+        for i, r in enumerate(exp["rows"]):
             r.pop("score")
+            if naming == "collide":
+                r["stamp"] = 100.5 + i
         out = _c12_compare(tr, exp, "seq", case, cls, "import_from_geff")
         for i, n in enumerate(nodes):
             if norm(tr.get_node_attr(ids[n], "score")) != norm(0.5 * i):
@@ -635,8 +671,10 @@ def c12_geff_cases(tier):
         sj = worlds.seed_to_json(seed)
         for scheme in ("seq", "gaps", "zero", "desc"):
             for ndim in (3, 4):
-                for naming in ("std", "renamed"):
+                for naming in ("std", "renamed", "collide"):
                     for pos_mode in ("std", "rev", "stacked"):
+                        if naming == "collide" and (pos_mode != "std" or scheme != "gaps" or ndim == 4):
+                            continue
                         if q and (ndim == 4) != (i % 2 == 0):
                             continue
                         if q and scheme in ("zero", "desc") and naming == "renamed":
